@@ -4,6 +4,7 @@ table emitted by clang) for each value of a finite domain; unknown operands make
 Nothing of the analysed program is executed: this is constant folding over every element of a
 finite partition of the input space."""
 import re
+from .build import AnalysisBroken
 from .expr import render
 from .model import CAST_KINDS, TRANSPARENT
 
@@ -64,6 +65,67 @@ class Evaluator:
                 e_.env.setdefault(k_, v)
             e_ = getattr(e_, "_parent", None)
         return bool(cells)
+
+    # ---- model drift: the rule's model of an object must name fields the program still has --------------------
+    def _root(self):
+        r = self
+        while getattr(r, "_parent", None) is not None:
+            r = r._parent
+        return r
+
+    def check_model(self):
+        """called once on the outermost evaluator before it runs: the member names the rule put into the environment
+        (fields of `this`, fields of heap objects `@addr.f`) must exist in the program. A private member that was renamed
+        or moved makes the model meaningless: that is ANALYSIS-BROKEN (the rule must be re-anchored), never a verdict."""
+        if getattr(self, "_model_checked", False) or getattr(self, "_parent", None) is not None:
+            return
+        self._model_checked = True
+        prog, f = self.prog, self.f
+        if not hasattr(prog, "_fields_of"):
+            prog._fields_of = {qn: {fl["name"] for fl in r.get("fields", [])} for qn, r in prog.records.items()}
+            prog._all_fields = set().union(*prog._fields_of.values()) if prog._fields_of else set()
+        objs = {}
+        for k in self.env:
+            m = re.match(r"^@(-?\d+)\.([A-Za-z_]\w*)", k) if isinstance(k, str) else None
+            if m:
+                objs.setdefault(m.group(1), set()).add(m.group(2))
+        self._model_objs = objs
+        for addr, names in objs.items():
+            if not any(names <= fs for fs in prog._fields_of.values()):
+                gone = sorted(n_ for n_ in names if n_ not in prog._all_fields) or sorted(names)
+                raise AnalysisBroken("the rule's model of the object at %s uses members %s that no single class of the program has (renamed or moved member %s?): the rule must be re-anchored" % (addr, sorted(names), gone[:3]))
+        if f.cls and f.cls in prog._fields_of:
+            own = set(prog._fields_of[f.cls])
+            c_ = f.cls
+            for _ in range(8):
+                bs = prog.records.get(c_, {}).get("bases") or []
+                if not bs:
+                    break
+                c_ = bs[0]
+                own |= prog._fields_of.get(c_, set())
+            locs = {q["name"] for q in f.params}
+            for gn in f.walk():
+                if gn["k"] == "DeclStmt":
+                    locs |= {d["name"] for d in gn.get("decls", [])}
+            for k in self.env:
+                if isinstance(k, str) and re.match(r"^[A-Za-z]\w*_$", k) and k not in locs and k not in own and k not in prog.globals and k in () :
+                    pass
+            stale = [k for k in self.env if isinstance(k, str) and re.match(r"^[A-Za-z]\w*_$", k) and k not in locs and k not in own and k not in prog.globals and k not in prog._all_fields]
+            if stale:
+                raise AnalysisBroken("the rule's model of %s sets members %s that the program no longer has (renamed or moved?): the rule must be re-anchored" % (f.cls, sorted(stale)[:4]))
+
+    def check_drift(self, key):
+        """a read of `@addr.f` that the model never held although it models other members of that object, where f is a
+        member the program has: the model is incomplete for this code (a member was added or renamed)"""
+        m = re.match(r"^@(-?\d+)\.([A-Za-z_]\w*)$", key) if isinstance(key, str) else None
+        if not m:
+            return
+        r = self._root()
+        objs = getattr(r, "_model_objs", None)
+        if objs and m.group(1) in objs and m.group(2) not in objs[m.group(1)] and m.group(2) in getattr(self.prog, "_all_fields", ()):
+            written = {k_ for k_, v_ in r.stores} | {k_ for k_, v_ in self.stores}
+            if key not in written:
+                raise AnalysisBroken("the code reads member %s of the object at %s, which the rule's model (members %s) does not hold: a member was renamed or added and the rule must be re-anchored" % (m.group(2), m.group(1), sorted(objs[m.group(1)])))
 
     def note_absent(self, key):
         """a read of a memory cell the model does not hold (element of an array / string / argv beyond what exists):
@@ -326,6 +388,7 @@ class Evaluator:
             if k == "MemberExpr" and (self.tinfo(n.get("ct")) or {}).get("k") == "array":
                 return ("ptr", key, 0)                  # a member array: its cells are env[name[i]]
             self.note_absent(key)
+            self.check_drift(key)
             raise Unknown(key)
         if k == "UnaryOperator":
             op = n["op"]
@@ -949,6 +1012,7 @@ class Evaluator:
     def run_blocks(self, start, stop_blocks=(), max_steps=2000, on_call=None):
         """Walk the CFG from block `start`, folding every element (see _run_blocks). With `objects` enabled, an exception
         that leaves the function destroys the local objects that were constructed and are still alive (stack unwinding)."""
+        self.check_model()
         r = self._run_blocks(start, stop_blocks, max_steps, on_call)
         if r[0] in ("throw", "return") and getattr(self, "_live", None):
             # (clang lists the destructors of a returning scope behind the return statement of the same block)
